@@ -588,6 +588,30 @@ pub fn run_glr(def: &'static Def, recs: &'static [Rec; NREC], cfg: &RunCfg, inpu
     }
 }
 
+/// All inputs of a case parsed in order by ONE GlrParser instance; only acceptance is reported
+/// (RESULT GLRS i OK <solutions> | ERR ... | PANIC ...): it must equal what a fresh parser says.
+pub fn run_glr_sequence(def: &'static Def, recs: &'static [Rec; NREC], cfg: &RunCfg, inputs: &[String]) -> Vec<String> {
+    let lexer: StringLexer<GCtx, St, Tk, Rec, NREC> = StringLexer::new(cfg.skip_ws, recs);
+    let parser: GlrParser<St, StringLexer<GCtx, St, Tk, Rec, NREC>, Pk, Tk, Nk, Def, str, TreeBuilder<str, Pk, Tk>> =
+        GlrParser::new(def, cfg.partial, cfg.has_layout, lexer);
+    let mut out = vec![];
+    for input in inputs {
+        let r = catch_unwind(AssertUnwindSafe(|| match parser.parse(input) {
+            Ok(_) => "OK".to_string(),
+            Err(e) => err_str(&e),
+        }));
+        PROGRESS.fetch_add(1, Ordering::SeqCst);
+        match r {
+            Ok(s) => out.push(s),
+            Err(e) => {
+                out.push(format!("PANIC {}", panic_msg(e)));
+                break;
+            }
+        }
+    }
+    out
+}
+
 /// measured behaviour of the real recognizers / whitespace test on this input
 fn match_table(recs: &'static [Rec; NREC], nterm: usize, input: &str, out: &mut String, i: usize) {
     let mut offs: Vec<usize> = input.char_indices().map(|(k, _)| k).collect();
@@ -854,10 +878,15 @@ fn main() {
                     if c.seq && !resume && c.lexer == "default" {
                         writeln!(out, "BEGIN {}", c.inputs.len()).unwrap();
                         out.flush().unwrap();
-                        let rs = run_lr_sequence(def, recs, &cfg, &c.inputs);
                         let mut b = String::new();
-                        for (ii, r) in rs.iter().enumerate() {
-                            writeln!(b, "RESULT LRS {ii} {r}").unwrap();
+                        if c.run == "GLR" {
+                            for (ii, r) in run_glr_sequence(def, recs, &cfg, &c.inputs).iter().enumerate() {
+                                writeln!(b, "RESULT GLRS {ii} {r}").unwrap();
+                            }
+                        } else {
+                            for (ii, r) in run_lr_sequence(def, recs, &cfg, &c.inputs).iter().enumerate() {
+                                writeln!(b, "RESULT LRS {ii} {r}").unwrap();
+                            }
                         }
                         out.write_all(b.as_bytes()).unwrap();
                         out.flush().unwrap();
